@@ -75,4 +75,24 @@ theorem past_max_refused (i : Inp) (hp : i.period ≤ 0) (hpast : i.start + effM
 example : calcTTL { now := 100, start := 40, sysMax := 100, sysDefault := 30, increment := 70, backendTTL := 0,
                     period := 0, backendMax := 0, explicitMax := 0 } = .ok 40 1 := by decide
 
+/-- **periodic role tokens stay capped by THEIR period at every renewal** (finding F104, repaired). A token created
+through a role with its own `period` (stored on the token; with a role period as well the lesser applies, as at
+creation) is renewed with `renewPeriod`: whatever the role's period, whatever the other inputs, every TTL a renewal
+grants is at most the token's own period. -/
+theorem periodic_role_token_capped_by_own_period (i : Inp) (tokenPeriod rolePeriod ttl : Int) (w : Nat)
+    (htp : tokenPeriod > 0) (hrp : rolePeriod ≥ 0)
+    (h : calcTTL { i with period := renewPeriod tokenPeriod rolePeriod } = .ok ttl w) :
+    ttl ≤ tokenPeriod := by
+  have hp : renewPeriod tokenPeriod rolePeriod > 0 ∧ renewPeriod tokenPeriod rolePeriod ≤ tokenPeriod := by
+    unfold renewPeriod; split <;> omega
+  have := (calcTTL_bound _ ttl w h).2 hp.1
+  exact Int.le_trans this.1 hp.2
+
+/-- with the role's period alone (before the repair) one renewal moves a token issued with a 60 s period to 1 h -/
+theorem periodic_role_token_role_period_only_cex :
+    ∃ (i : Inp) (tokenPeriod rolePeriod ttl : Int) (w : Nat), tokenPeriod > 0 ∧
+      calcTTL { i with period := renewPeriodRoleOnly tokenPeriod rolePeriod } = .ok ttl w ∧ ttl > tokenPeriod :=
+  ⟨{ now := 10, start := 0, sysMax := 2764800, sysDefault := 2764800, increment := 0, backendTTL := 0, period := 0,
+     backendMax := 0, explicitMax := 0 }, 60, 3600, 3600, 0, by decide, by decide, by decide⟩
+
 end C05
